@@ -495,22 +495,22 @@ META = {
         "technique": "TLA+ spec model-checked with TLC; table conformance of both codecs against the same abstract value",
         "design_ref": "DESIGN.md section 5 C41/C43", "engine": "E4 table"},
     "C42": {
-        "level_text": "CcfOrder.tla states the two canonical orders of CCF (bytewise on the encoded key for dictionary entries; length-first then bytewise for field names, intersection members, entitlement sets and type definitions) and models the deterministic encoder as a selection sort; TLC explores it from every permutation of every 2..3 (thorough: 2..4) element set and checks sortedness, permutation invariance and 'strict decoder accepts iff canonical'. The table of ~4 700 (thorough ~25 000) permutations is replayed: the real deterministic encoding must be byte-identical across permutations, emit exactly the predicted order (for dictionaries also the predicted CBOR bytes of each key), and the strict decoder must accept a re-ordered encoding iff the model does. Orders extracted from real encodings (including random dictionaries over 16 key types) are judged by TLC (Trace_CcfOrder). Round trip: every value of the JsonCdc universe is CCF-encoded (default and deterministic), decoded (default and strict) and compared with CcfView(v). Decoder robustness is exploration (seeded byte/CBOR-head mutants).",
+        "level_text": "CcfOrder.tla states the two canonical orders of CCF (bytewise on the encoded key for dictionary entries; length-first then bytewise for field names, intersection members, entitlement sets and type definitions) and models the deterministic encoder as a selection sort; TLC explores it from every permutation of every 2..3 (thorough: 2..4) element set and checks sortedness, permutation invariance and 'strict decoder accepts iff canonical'. The table of ~3 000 (thorough ~24 000) permutations is replayed: the real deterministic encoding must be byte-identical across permutations, emit exactly the predicted order (for dictionaries also the predicted CBOR bytes of each key), and the strict decoder must accept a re-ordered encoding iff the model does. Orders extracted from real encodings (including random dictionaries over 16 key types) are judged by TLC (Trace_CcfOrder). Round trip: every value of the JsonCdc universe is CCF-encoded (default and deterministic), decoded (default and strict) and compared with CcfView(v). Decoder robustness is exploration (seeded byte/CBOR-head mutants).",
         "level_note": "Bounded sets (<= 4 elements, names of <= 3 bytes). Re-ordering of type definitions is not attempted (only their emitted order is judged). The robustness half is random exploration.",
         "technique": "TLA+ spec model-checked with TLC; table conformance (E4), replay of permutations (E2), TLC judging recorded orders (E3), mutation exploration",
         "design_ref": "DESIGN.md section 5 C42", "engine": "E4 table + E3 judge + exploration"},
     "C29": {
-        "level_text": "ArgValidation.tla defines Importable(T), deep Conforms(v, T) against the declared program, Subtype on the fragment, and an argument generator as a state machine (correct witness, then corruption actions: wrong leaf / sibling numeric type / nil / resource / capability at every position, missing, extra, renamed, re-ordered fields, swapped values, unknown or foreign type ID, wrong composite kind, extra / dropped element, duplicate key, mixed range members). TLC checks the model's laws (witnesses conform, conformance is upward closed along Subtype, Subtype is a preorder) and prints ~1 000 (thorough ~16 000, two corruption steps) (T, argument, predicted verdict) rows over 56 parameter types. Every row is encoded with JSON-Cadence and CCF and run through runtime.ExecuteScript on interpreter and VM: accepted implies the model says importable and conforming; every rejection must be a user error; the run-time type each accepting script reports is judged by TLC with the spec's Subtype; the value handed back by the script is exported and round-tripped through both codecs.",
+        "level_text": "ArgValidation.tla defines Importable(T), deep Conforms(v, T) against the declared program, Subtype on the fragment, and an argument generator as a state machine (correct witness, then corruption actions: wrong leaf / sibling numeric type / nil / resource / capability at every position, missing, extra, renamed, re-ordered fields, swapped values, unknown or foreign type ID, wrong composite kind, extra / dropped element, duplicate key, mixed range members). TLC checks the model's laws (witnesses conform, conformance is upward closed along Subtype, Subtype is a preorder) and prints ~1 170 (thorough ~31 000, two corruption steps) (T, argument, predicted verdict) rows over 58 parameter types. Every row is encoded with JSON-Cadence and CCF and run through runtime.ExecuteScript on interpreter and VM: accepted implies the model says importable and conforming; every rejection must be a user error; the run-time type each accepting script reports is judged by TLC with the spec's Subtype; the value handed back by the script is exported and round-tripped through both codecs.",
         "level_note": "One-sided as the property: a conforming argument that is rejected is recorded, not judged. Bounded universe of parameter types (one program). The return-value half additionally uses 9 fixed probe scripts.",
         "technique": "TLA+ spec model-checked with TLC; TLC-enumerated table replayed on the real runtime (E4/E2); TLC judging recorded run-time types (E3)",
         "design_ref": "DESIGN.md section 5 C29", "engine": "E4 table + E3 judge"},
     "C48": {
-        "level_text": "Events.tla models event declarations (ordered typed fields) and nine kinds of emit site (emit statement through an imported contract, event declared by the script, pre-, post- and interface-inherited conditions, default destruction events with literal / self.f / self.s.v default arguments, nested destruction, attachment destruction with base.f defaults, destruction of an array) and the payloads the host must receive; TLC explores delivery in every order and checks that every payload has the declared fields in declaration order and that exactly the expected events are delivered. The ~640 (thorough ~4 000) configurations over 23 field specs are rendered to Cadence programs and executed on interpreter and VM; every payload handed to EmitEvent is compared with the model: type ID, field names and order, declared field types, values, dynamic type of each value.",
+        "level_text": "Events.tla models event declarations (ordered typed fields) and nine kinds of emit site (emit statement through an imported contract, event declared by the script, pre-, post- and interface-inherited conditions, default destruction events with literal / self.f / self.s.v default arguments, nested destruction, attachment destruction with base.f defaults, destruction of an array) and the payloads the host must receive; TLC explores delivery in every order and checks that every payload has the declared fields in declaration order and that exactly the expected events are delivered. The ~640 (thorough ~3 500) configurations over 23 field specs are rendered to Cadence programs and executed on interpreter and VM; every payload handed to EmitEvent is compared with the model: type ID, field names and order, declared field types, values, dynamic type of each value.",
         "level_note": "Bounded: events of 1-3 fields over 23 (type, value) specs; the rendering of configurations to source text is trusted Go code. Order among the events of one destroy statement is deliberately not judged.",
         "technique": "TLA+ spec model-checked with TLC; TLC-enumerated configurations with predicted payloads replayed on the real runtime (E2/E4)",
         "design_ref": "DESIGN.md section 5 C48", "engine": "E2 replay"},
     "C44": {
-        "level_text": "Round trip and version stability of the storage encoding. The TLA+ model (JsonCdc.tla / MC_JsonCdc.tla) only contributes the universe (storable values of depth <= 2 with boundary numbers, ~1 300 static types of every kind, 12 storage-only values: capability controllers, published and capability values, deprecated links and path capabilities) and the abstract equality; it does not specify the CBOR layout. Every value is stored through the real runtime (account registers = slab encodings, interpreter and VM must write the same bytes), re-read by a fresh script and compared; static types go through StaticTypeToBytes/FromBytes, storage-only values through Storable.Encode/DecodeStorable; 6 fixed programs store resources, nested resources, resource collections and issue/publish capabilities. Stability: a golden corpus written by the pinned tree (corpus/stored/golden.ndjson.gz, ~6 000 entries: abstract value + registers/bytes) must be reproduced byte for byte by the current encoder and decode to the recorded value.",
+        "level_text": "Round trip and version stability of the storage encoding. The TLA+ model (JsonCdc.tla / MC_JsonCdc.tla) only contributes the universe (storable values of depth <= 2 with boundary numbers, ~1 300 static types of every kind, 12 storage-only values: capability controllers, published and capability values, deprecated links and path capabilities) and the abstract equality; it does not specify the CBOR layout. Every value is stored through the real runtime (account registers = slab encodings, interpreter and VM must write the same bytes), re-read by a fresh script and compared; static types go through StaticTypeToBytes/FromBytes, storage-only values through Storable.Encode/DecodeStorable; 6 fixed programs store resources, nested resources, resource collections and issue/publish capabilities. Stability: a golden corpus written by the pinned tree (corpus/stored/golden.ndjson.gz, 5 432 entries: abstract value + registers/bytes) must be reproduced byte for byte by the current encoder and decode to the recorded value.",
         "level_note": "TLA+ contributes the value universe and the abstract equality only; the verdict is a differential test against bytes recorded from the pinned tree (level 'other'). Values that cannot be passed as arguments (resources, capabilities) are covered by fixed programs only.",
         "technique": "TLC-enumerated universe; encode/decode/re-encode on the real storage codec; golden corpus recorded from the pinned tree replayed into the current tree",
         "design_ref": "DESIGN.md section 5 C44", "engine": "golden corpus replay"},
